@@ -670,12 +670,13 @@ class AsyncFIXConnection:
 
         assert gap_fill_end <= current_next_num_out, "Unexpected end for gap"
 
-        # Remainder not available in some reason
-        if gap_fill_begin < current_next_num_out:
+        # Remainder not available in some reason (never beyond the requested range)
+        gap_fill_last = min(end_seq_no + 1, current_next_num_out)
+        if gap_fill_begin < gap_fill_last:
             gap_fill_msg = FIXMessage(FMsg.SEQUENCERESET)
             gap_fill_msg[FTag.GapFillFlag] = "Y"
             gap_fill_msg[FTag.MsgSeqNum] = gap_fill_begin
-            gap_fill_msg[FTag.NewSeqNo] = current_next_num_out
+            gap_fill_msg[FTag.NewSeqNo] = gap_fill_last
             await self.send_msg(gap_fill_msg)
 
         if self._connection_state != ConnectionState.RESENDREQ_AWAITING:
